@@ -333,6 +333,9 @@ func (w *htlcWorkload) assetConfig() []htAssetCfg {
 		{Denom: "htltaaa", Deputy: 3, Limit: htP10(6), TL: true, Period: 45 * time.Second, TBL: htP10(5), Fee: big.NewInt(0), Min: big.NewInt(1), Max: htP10(6), MinLock: 50, MaxLock: 100},
 		{Denom: "htltbbb", Deputy: 1, Limit: htP10(6), TL: false, Period: 0, TBL: big.NewInt(0), Fee: big.NewInt(7), Min: big.NewInt(3), Max: new(big.Int).Mul(big.NewInt(2), htP10(6)), MinLock: 50, MaxLock: 34560},
 	}
+	if w.shared {
+		cfg[2].Period = 10 * time.Minute // long enough for the scripted in-and-out transfers to fall into one limit period
+	}
 	if w.rng == nil {
 		return cfg
 	}
@@ -1615,6 +1618,8 @@ func (w *htlcWorkload) scripted(st *htState) []rig.Tx {
 		txs = w.tighten(st)
 	case s.Type == "params" && s.Fate == "room-for-tl":
 		txs = w.roomForTL(st)
+	case s.Fate == "fast" && s.Type == "outgoing":
+		txs = w.createOutgoing(st, "fast", 0, s.Arg)
 	case s.Fate == "fast":
 		txs = w.createIncoming(st, "fast", 0, s.Arg)
 	case s.Fate == "bucket":
@@ -1709,6 +1714,15 @@ func (w *htlcWorkload) Next(block int) []rig.Tx {
 	}
 	// on the multi-module chains the authority empties the asset list altogether every 50 blocks and restores it four
 	// blocks later (the begin blocker has nothing to update meanwhile)
+	// on the multi-module chains, every 50 blocks: an incoming transfer of the time-limited asset that has no genesis
+	// supply, claimed at once, and three blocks later an outgoing transfer of the same asset, claimed at once (the
+	// asset's current supply goes down again while its limit period is still running)
+	if w.shared && block%50 == 8 {
+		w.Push(htScript{Type: "incoming", Fate: "fast", Arg: "htltaaa"})
+	}
+	if w.shared && block%50 == 11 {
+		w.Push(htScript{Type: "outgoing", Fate: "fast", Arg: "htltaaa"})
+	}
 	if w.shared && (block%50 == 30 || ((block%50 >= 34 || block%50 < 30) && len(w.delisted) > 0)) {
 		if tx, ok := w.delistAll(st, block%50 != 30); ok {
 			txs = append(txs, tx)
